@@ -250,6 +250,26 @@ def deposed_leader_get(s):
     s.pump(c1)
 
 
+def split4(s):
+    """4 servers split in two halves {1,2} / {3,4}; election timers fire in both halves; each half is asked to serve a client:
+    put(k,v1) at S1 (replicated to S2 only), then get(k) at S3 (which talks to S4 only). Exactly half of the servers is not a quorum: nobody
+    may become leader, nothing is acknowledged until the halves heal (epilogue). If half counted as a quorum, S1 and S3 are both
+    leader of term 2, the Put is acknowledged by one half and the Get of the other half misses it."""
+    c1, c2 = s.w.client_ids()[:2]
+    s.try_elect(1, [2])
+    s.try_elect(3, [4])
+    s.client_request(c1, ("put", 1, 1), 1)
+    s.deliver(1, lambda m: m.get("mtype") == "cpq")
+    if s.w.g["state"][1] == "leader":
+        s.replicate(1, [2])
+    s.pump(c1)
+    s.client_request(c2, ("get", 1, 0), 3)
+    s.deliver(3, lambda m: m.get("mtype") == "cgq")
+    if s.w.g["state"][3] == "leader":
+        s.replicate(3, [4])
+    s.pump(c2)
+
+
 def stale_leader_core(s):
     """corpus/C08/stale_leader.json (two elections, stale leader of term 3 while term 4 commits), with a second client"""
     import vlib
@@ -275,6 +295,8 @@ SCENARIOS = [
      "a deposed leader is asked get(k) while a newer leader has committed and acknowledged put(k,v2)"),
     ("ack_crash_short_candidate", dict(P3, crashers=[1], keys=2), ack_crash_short_candidate,
      "leader crashes after acknowledging put(k,v2); the follower that misses the entry stands for election first"),
+    ("split4", dict(P3, n=4), split4,
+     "4 servers split in two halves, both hold an election and serve a client: half of the servers is not a quorum"),
     ("figure8_clients", C08_PARAMS["figure8"], lambda s: S.figure8(s.h, mk=lambda h, p: s), "corpus/C08 figure8 with clients completing their operations"),
     ("deposed_leader_clients", C08_PARAMS["deposed_leader"], lambda s: S.deposed_leader(s.h, mk=lambda h, p: s),
      "corpus/C08 deposed_leader with clients completing their operations"),
